@@ -120,3 +120,38 @@ def numba_uniform(seed):
 
 def predicted_choice(probs, u):
     return int(np.searchsorted(np.cumsum(probs), u, side="right"))
+
+
+def run_forked(fn, timeout=600):
+    """Run fn() in a forked child; returns ("ok", result) | ("signal", signo) | ("error", text).
+
+    Used when a monitor has reason to believe that the compiled code under observation may crash natively
+    (a crash must become a witness, not the loss of the whole shard)."""
+    import os
+    import pickle
+    import signal
+
+    r, w = os.pipe()
+    pid = os.fork()
+    if pid == 0:
+        try:
+            os.close(r)
+            try:
+                out = ("ok", fn())
+            except BaseException as ex:  # noqa: BLE001
+                out = ("error", repr(ex))
+            with os.fdopen(w, "wb") as fh:
+                pickle.dump(out, fh)
+        finally:
+            os._exit(0)
+    os.close(w)
+    data = b""
+    with os.fdopen(r, "rb") as fh:
+        data = fh.read()
+    _, status = os.waitpid(pid, 0)
+    if os.WIFSIGNALED(status):
+        return ("signal", os.WTERMSIG(status))
+    try:
+        return pickle.loads(data)
+    except Exception as ex:  # noqa: BLE001
+        return ("error", "no result from child: %r" % ex)
